@@ -209,3 +209,96 @@ Proof.
 Qed.
 
 End Bytes.
+
+(* ---- bridge to the specification (sep = COMMA, del = QUOTE) --------------------------- *)
+Lemma needs_quote_has w : needs_quote w = cq_of COMMA QUOTE w.
+Proof.
+  unfold needs_quote, cq_of, has. induction w as [|c w IH]; [reflexivity|].
+  cbn [existsb]. rewrite IH.
+  destruct (c =? COMMA), (c =? QUOTE), (existsb (fun c0 => c0 =? COMMA) w), (existsb (fun c0 => c0 =? QUOTE) w); reflexivity.
+Qed.
+
+Lemma dq_no_quote w : has QUOTE w = false -> dq QUOTE w = w.
+Proof.
+  unfold has, dq. induction w as [|c w IH]; intros H; [reflexivity|].
+  cbn [existsb flat_map] in *. apply orb_false_iff in H. destruct H as [H1 H2].
+  rewrite H1. cbn [app]. rewrite IH by exact H2. reflexivity.
+Qed.
+
+Lemma esc_csv w : esc QUOTE (cq_of COMMA QUOTE w) w = csv_escape w.
+Proof.
+  unfold csv_escape. rewrite needs_quote_has. unfold esc.
+  destruct (cq_of COMMA QUOTE w) eqn:E.
+  - reflexivity.
+  - cbn [app]. rewrite app_nil_r. apply dq_no_quote.
+    unfold cq_of in E. apply orb_false_iff in E. tauto.
+Qed.
+
+Lemma isnil_nonempty w : isnil w = negb (nonempty w).
+Proof. destruct w; reflexivity. Qed.
+
+Lemma join_from_spec : forall ws started,
+  join_from COMMA QUOTE started ws =
+  match filter nonempty ws with
+  | [] => []
+  | _ => (if started then [COMMA] else []) ++ intercalate COMMA (map csv_escape (filter nonempty ws))
+  end.
+Proof.
+  induction ws as [|w ws IH]; intros started; [reflexivity|].
+  cbn [join_from filter]. rewrite isnil_nonempty. destruct (nonempty w) eqn:E; cbn [negb].
+  - rewrite esc_csv, (IH true). cbn [map intercalate].
+    destruct (filter nonempty ws) as [|w2 t]; cbn [map].
+    + rewrite app_nil_r. reflexivity.
+    + reflexivity.
+  - apply IH.
+Qed.
+
+Lemma join_from_entry ws : join_from COMMA QUOTE false ws = concat_entry ws.
+Proof.
+  rewrite join_from_spec. unfold concat_entry. destruct (filter nonempty ws); reflexivity.
+Qed.
+
+Lemma cnt_nonneg ws : 0 <= cnt ws.
+Proof. unfold cnt. apply len_nonneg. Qed.
+
+Lemma cnt_cons w ws : cnt (w :: ws) = (if nonempty w then 1 else 0) + cnt ws.
+Proof. unfold cnt. cbn [filter]. destruct (nonempty w); rewrite ?len_cons; lia. Qed.
+
+Lemma cnt_le_len ws : cnt ws <= len ws.
+Proof.
+  induction ws as [|w ws IH]; [unfold cnt; cbn; lia|].
+  rewrite cnt_cons, len_cons. destruct (nonempty w); lia.
+Qed.
+
+Lemma cnt_zero_entry ws : cnt ws = 0 -> concat_entry ws = [] /\ concat ws = [].
+Proof.
+  induction ws as [|w ws IH]; intros H; [split; reflexivity|].
+  rewrite cnt_cons in H. pose proof (cnt_nonneg ws).
+  destruct w as [|c w']; cbn [nonempty] in H; [|lia].
+  destruct (IH ltac:(lia)) as [H1 H2]. split.
+  - unfold concat_entry in *. cbn [filter nonempty]. exact H1.
+  - cbn [concat app]. exact H2.
+Qed.
+
+Lemma cnt_one_entry ws : cnt ws = 1 -> concat_entry ws = csv_escape (concat ws).
+Proof.
+  induction ws as [|w ws IH]; intros H; [unfold cnt in H; cbn in H; lia|].
+  rewrite cnt_cons in H. pose proof (cnt_nonneg ws).
+  destruct w as [|c w']; cbn [nonempty] in H.
+  - cbn [concat app]. unfold concat_entry in *. cbn [filter nonempty]. apply IH. lia.
+  - destruct (cnt_zero_entry ws ltac:(lia)) as [H1 H2].
+    cbn [concat]. rewrite H2, app_nil_r.
+    unfold concat_entry in *. cbn [filter nonempty map intercalate].
+    destruct (filter nonempty ws) as [|w2 t] eqn:Ef; [reflexivity|].
+    exfalso. unfold cnt in H. rewrite Ef, len_cons in H. pose proof (len_nonneg t). lia.
+Qed.
+
+Lemma concat_pos ws : (len (concat ws) >? 0) = (cnt ws >? 0).
+Proof.
+  induction ws as [|w ws IH]; [reflexivity|].
+  cbn [concat]. rewrite len_app, cnt_cons. pose proof (cnt_nonneg ws). pose proof (len_nonneg (concat ws)).
+  destruct w as [|c w']; cbn [nonempty].
+  - rewrite len_nil. replace (0 + len (concat ws)) with (len (concat ws)) by lia.
+    replace (0 + cnt ws) with (cnt ws) by lia. exact IH.
+  - rewrite len_cons. pose proof (len_nonneg w'). lia.
+Qed.
